@@ -196,7 +196,17 @@ where
         }
     }
 
-    /// Collects the variables that occur in the term `v`, at any depth of a list.
+    /// Collects the variables that occur in the fields of a compound object.
+    fn variables_compound(compound: &dyn CompoundObject<U, E>, variables: &mut Vec<LTerm<U, E>>) {
+        for child in compound.children() {
+            match child.as_term() {
+                Some(v) => SMap::variables(v, variables),
+                None => SMap::variables_compound(child, variables),
+            }
+        }
+    }
+
+    /// Collects the variables that occur in the term `v`, at any depth of a list or compound.
     fn variables(v: &LTerm<U, E>, variables: &mut Vec<LTerm<U, E>>) {
         match v.as_ref() {
             LTermInner::Var(_, _) => variables.push(v.clone()),
@@ -204,6 +214,7 @@ where
                 SMap::variables(head, variables);
                 SMap::variables(tail, variables);
             }
+            LTermInner::Compound(compound) => SMap::variables_compound(compound.as_ref(), variables),
             _ => (),
         }
     }
